@@ -33,6 +33,10 @@ CONSTANTS MaxUnits,      \* number of units below the top level
           Start, Cont,   \* sequences of one-character strings: first / following characters of generated names
           DReserved,     \* reserved words of the reduced alphabet
           AllowWith, AllowVars, MaxUses,
+          OldWith,       \* FALSE = the code since fix 1b51557: every function that contains a with statement *anywhere
+                         \* below it* keeps its names, and so does the top level when the program has a with.
+                         \* TRUE = the behaviour before the fix (only the innermost function of a with is exempt): kept as
+                         \* wrong-design guard - JsRenamer_withcross.cfg / JsRenamer_withinner.cfg must still violate
           RestoreOwn     \* FALSE = the code; TRUE = self-test mutant: on leaving a function the rename flag is restored
                          \* to the function's own value instead of the saved one (the two lines at the top of
                          \* minifyArrowFunc/minifyFuncDecl/minifyMethodDecl swapped)
@@ -163,11 +167,15 @@ UndeclaredOf(us, a, i) ==
   LET below == UNION {OwnScopes(us, a.fs, j) : j \in {u \in DOMAIN us : IsUnder(us, u, i)}} IN
   {<<a.kr[k], a.es[k][3]>> : k \in {j \in DOMAIN a.kr : IsUnder(us, a.es[j][4], i) /\ a.kr[j] \notin below}}
 
+\* Does the code of unit i contain a with statement?  (parser: HasWith of the innermost function only; since fix
+\* 1b51557 a pre-walk marks every enclosing function as well)
+HasWith(us, i) == IF OldWith THEN us[i].w ELSE \E j \in DOMAIN us : IsUnder(us, j, i) /\ us[j].w
+TopFlag(us) == IF OldWith THEN TRUE ELSE \A j \in DOMAIN us : ~us[j].w
 \* What the flag is MEANT to be when unit i is entered (js.go: rename = !HasWith of the *function* being minified,
-\* restored on exit; blocks inherit the flag of the function they are in; the top level starts with renaming on).
+\* restored on exit; blocks inherit the flag of the function they are in; the top level starts with TopFlag).
 \* The actions below keep the flag the way the code does (save / set / restore); FlagAsMeant relates the two.
 RECURSIVE RenameOn(_, _)
-RenameOn(us, i) == IF i = 0 THEN TRUE ELSE IF us[i].kind = "F" THEN ~us[i].w ELSE RenameOn(us, us[i].par)
+RenameOn(us, i) == IF i = 0 THEN TopFlag(us) ELSE IF us[i].kind = "F" THEN ~HasWith(us, i) ELSE RenameOn(us, us[i].par)
 
 CurName(nn, b) == IF b \in DOMAIN nn THEN nn[b] ELSE b[2]
 \* renameScope: walk the ordered bindings, skipping reserved / undeclared names
@@ -198,7 +206,7 @@ Init == /\ \E n \in 1..MaxUnits : \E pv \in ParentVecs(n) : \E bs \in [1..n -> B
         /\ newname = <<>>
         /\ aux = <<>>
         /\ fin = <<>>
-        /\ flag = TRUE          \* newRenamer(!KeepVarNames, ...): the top level starts with shortening on
+        /\ flag = TopFlag(units) \* newRenamer(!KeepVarNames && !wm.found, ...)
         /\ stack = <<>>
 
 \* the parser's pass: resolve every reference of the input (kept out of Init so that TLC's workers share it)
@@ -223,8 +231,8 @@ EnterBlock(i) ==
 \* minifyFuncDecl / minifyMethodDecl / minifyArrowFunc:  parentRename := rename; rename = !HasWith && !KeepVarNames; renameScope
 EnterFunction(i) ==
   /\ units[i].kind = "F"
-  /\ stack' = Append(stack, IF RestoreOwn THEN ~units[i].w ELSE flag)
-  /\ flag' = ~units[i].w
+  /\ stack' = Append(stack, IF RestoreOwn THEN ~HasWith(units, i) ELSE flag)
+  /\ flag' = ~HasWith(units, i)
   /\ Renamed(i, flag')
 \* ... rename = parentRename
 LeaveFunction(i) ==
